@@ -602,6 +602,20 @@ impl Regs {
     }
 }
 
+#[cfg(rustzx_verif)]
+impl Regs {
+    /// Current value of the hidden Q latch
+    pub fn verif_q(&self) -> u8 {
+        self.q
+    }
+
+    /// Overrides hidden Q latches (current, previous)
+    pub fn verif_set_q(&mut self, q: u8, last_q: u8) {
+        self.q = q;
+        self.last_q = last_q;
+    }
+}
+
 pub enum BlockIoOpcode {
     Inir,
     Indr,
